@@ -217,6 +217,26 @@ def pyRate (r : Reaction String (Poly String)) : Bool :=
 def pyNumberEntry (pyNums : Bool) (rs : List (Reaction String (Poly String))) (cstr? : Option (Cstr String)) (s : String) : Bool :=
   pyNums && cstr?.isNone && (rs.filter fun r => decide (s ∈ rxnKeys r)).all pyRate
 
+/-- all species a reaction reports a rate for (`Reaction.keys()`) -/
+def rxnSpecies (r : Rxn) : List String :=
+  dedupKeys (dkeys r.reac ++ dkeys r.prod ++ dkeys r.inactReac ++ dkeys r.inactProd)
+
+/-- the rate coefficient is a plain Python number: `pyKeys` are the entries of `variables` that hold Python numbers (passive
+    values, active expressions made of Python numbers only).  A sympy expression that happens to simplify to a constant
+    (`0 * Symbol`) is NOT a Python number — Python-number-ness is a matter of provenance, not of value. -/
+def pyCoeff (vars : List (String × Poly String)) (pyKeys : List String) : RateParam → Bool
+  | .raw _ => true
+  | .ma _ => true
+  | .named uk _ => if dmem vars uk then decide (uk ∈ pyKeys) else true
+  | .key uk => decide (uk ∈ pyKeys)
+  | .sym uk => decide (uk ∈ pyKeys)
+
+/-- `pyNumberEntry` by provenance (see `pyCoeff`): the entry of `s` in the rate dict is a plain Python number -/
+def pyNumberEntryG (pyNums : Bool) (vars : List (String × Poly String)) (pyKeys : List String) (rxns : List Rxn)
+    (cstr? : Option (Cstr String)) (s : String) : Bool :=
+  pyNums && cstr?.isNone &&
+    (rxns.filter fun r => decide (s ∈ rxnSpecies r)).all fun r => r.reac.isEmpty && pyCoeff vars pyKeys r.param
+
 /-! ## `get_odesys` -/
 
 /-- build configuration of `get_odesys`: `include_params`, passive (numeric) `substitutions`, `cstr` -/
@@ -320,7 +340,7 @@ def buildRhs (cfg : Cfg) (sys : Sys) : Except BuildErr OdeSys :=
           match readExprs names (sysRates (lookup vars) rs none cstr?) with
           | .error e => .error e
           | .ok exprs =>
-            if names.any (pyNumberEntry cfg.pyNums rs cstr?) then .error .attributeError else
+            if names.any (pyNumberEntryG cfg.pyNums vars (dkeys cfg.subs) sys.rxns cstr?) then .error .attributeError else
             .ok { names := names, paramNames := paramNames, paramKeys := allPk cfg sys.subst,
                   unique := uniqueDict cfg sys.rxns, exprs := exprs,
                   rateExprs := rs.map (massAction (lookup vars)) }
@@ -402,6 +422,24 @@ def paramNamesG (g : GCfg) (sys : Sys) : List String :=
   if g.includeParams then pk
   else pk ++ (dkeys (uniqueDictG g sys.rxns)).filter fun k => !(decide (k ∈ pk))
 
+/-- an expression made of Python numbers only (`Constant`s and entries of `variables` that are Python numbers) evaluates to a
+    Python number; as soon as a sympy object takes part the result is a sympy object, whatever its value -/
+def pyExpr (pyKeys : List String) : PExpr → Bool
+  | .const _ => true
+  | .sym k => decide (k ∈ pyKeys)
+  | .add a b => pyExpr pyKeys a && pyExpr pyKeys b
+  | .mul a b => pyExpr pyKeys a && pyExpr pyKeys b
+
+/-- the keys of `variables` holding Python numbers after the active substitutions -/
+def pyKeysActive (pyKeys : List String) : List (String × PExpr) → List String
+  | [] => pyKeys
+  | (k, e) :: t =>
+    pyKeysActive (if pyExpr pyKeys e then k :: pyKeys else pyKeys.filter fun x => !(decide (x = k))) t
+
+/-- … and after the passive values (all of them numbers) were written -/
+def pyKeysG (g : GCfg) (sys : Sys) : List String :=
+  pyKeysActive [] g.active ++ dkeys (g.subs ++ usedConsts g sys.subst)
+
 /-- `for k, act in _active_subst.items(): variables[k] = act(variables, backend=backend)` — sequential, each expression sees
     the entries written before it; `none` = KeyError -/
 def applyActive (d : List (String × Poly String)) : List (String × PExpr) → Option (List (String × Poly String))
@@ -444,7 +482,7 @@ def buildRhsG (g : GCfg) (sys : Sys) : Except BuildErr OdeSys :=
             match readExprs names (sysRates (lookup vars) rs none cstr?) with
             | .error e => .error e
             | .ok exprs =>
-              if names.any (pyNumberEntry g.pyNums rs cstr?) then .error .attributeError else
+              if names.any (pyNumberEntryG g.pyNums vars (pyKeysG g sys) sys.rxns cstr?) then .error .attributeError else
               .ok { names := names, paramNames := paramNames, paramKeys := allPkG g sys.subst,
                     unique := uniqueDictG g sys.rxns, exprs := exprs,
                     rateExprs := rs.map (massAction (lookup vars)) }
